@@ -95,7 +95,7 @@ var callersVia = map[string][]string{
 var callersTable = []callersRow{
 	{"nsqd", "(*Channel).put", []string{"C01", "C02", "C13"}, []string{"(*nsqd.Channel).PutMessage", "(*nsqd.Channel).RequeueMessage", "(*nsqd.Channel).processDeferredQueue", "(*nsqd.Channel).processInFlightQueue"},
 		"a message enters a channel's queue from the topic pump, a requeue or a scan – anything else duplicates it"},
-	{"nsqd", "(*Topic).put", []string{"C01", "C13"}, []string{"(*nsqd.Topic).PutMessage", "(*nsqd.Topic).PutMessages"},
+	{"nsqd", "(*Topic).put", []string{"C01", "C12", "C13"}, []string{"(*nsqd.Topic).PutMessage", "(*nsqd.Topic).PutMessages"},
 		"a message enters the topic queue from a publish"},
 	{"nsqd", "writeMessageToBackend", []string{"C01", "C05", "C07"}, []string{"(*nsqd.Channel).flush", "(*nsqd.Channel).put", "(*nsqd.Topic).flush", "(*nsqd.Topic).put"},
 		"only put (overflow) and flush (exit) write messages to disk"},
